@@ -12,6 +12,7 @@ import (
 
 	sdkmath "cosmossdk.io/math"
 	sdk "github.com/cosmos/cosmos-sdk/types"
+	evmtypes "github.com/palomachain/paloma/v2/x/evm/types"
 	"github.com/palomachain/paloma/v2/x/skyway"
 	skykeeper "github.com/palomachain/paloma/v2/x/skyway/keeper"
 	skytypes "github.com/palomachain/paloma/v2/x/skyway/types"
@@ -26,6 +27,22 @@ type c02Att struct {
 	observed bool
 	amount   int64
 	appl     bool
+	compass  int // index of the stored claim's compass id ("compass-<k>"), 0 = none / unknown
+}
+
+// c02Compass names the bridge deployment ids of the C02 generator; index 1 is the fixture's skyCompass.
+func c02Compass(k int) string { return fmt.Sprintf("compass-%d", k) }
+
+func c02CompassIndex(s string) int {
+	if s == "" {
+		return 0
+	}
+	for k := 1; k <= 9; k++ {
+		if s == c02Compass(k) {
+			return k
+		}
+	}
+	return -1
 }
 
 type c02Harness struct {
@@ -40,6 +57,7 @@ type c02Harness struct {
 	seenObserved map[string]bool
 	epochStart   uint64         // cursor value installed by the last governance override (0 at genesis)
 	obsCount     map[uint64]int // nonce -> attestations that became observed since the last override
+	dep          int            // index of the bridge deployment id installed by the last activation
 }
 
 func (c *c02Harness) valIndex(oper string) int {
@@ -60,7 +78,7 @@ func (c *c02Harness) atts() []c02Att {
 			c.r.t.Fatal(err)
 		}
 		h, _ := claim.ClaimHash()
-		a := c02Att{nonce: claim.GetSkywayNonce(), hash: new(big.Int).SetBytes(h).String(), observed: att.Observed}
+		a := c02Att{nonce: claim.GetSkywayNonce(), hash: new(big.Int).SetBytes(h).String(), observed: att.Observed, compass: c02CompassIndex(claim.GetCompassID())}
 		for _, v := range att.Votes {
 			a.votes = append(a.votes, c.valIndex(v))
 		}
@@ -117,6 +135,7 @@ func (c *c02Harness) state() string {
 		fmt.Fprintf(&sb, "%d:%s:%s:%d", a.nonce, a.hash, strings.Join(vs, "."), o)
 	}
 	fmt.Fprintf(&sb, " minted=%s", e.in.BankKeeper.GetSupply(e.ctx, e.denoms[0]).Amount)
+	fmt.Fprintf(&sb, " dep=%d", c02CompassIndex(e.raw.GetLatestCompassID(e.ctx, skyChain)))
 	return sb.String()
 }
 
@@ -178,21 +197,26 @@ func TestC02(t *testing.T) {
 func runC02Case(t *testing.T, r *Rec, nops int) {
 	e := newSkyEnv(t, 2)
 	e.addToken("utok1", "0x1000000000000000000000000000000000000001")
-	c := &c02Harness{r: r, e: e, applied: map[string]bool{}, expectSupply: new(big.Int), claimAmt: map[string]int64{}, seenObserved: map[string]bool{}, obsCount: map[uint64]int{}}
+	c := &c02Harness{r: r, e: e, applied: map[string]bool{}, expectSupply: new(big.Int), claimAmt: map[string]int64{}, seenObserved: map[string]bool{}, obsCount: map[uint64]int{}, dep: 1}
+	if skyCompass != c02Compass(1) {
+		t.Fatalf("C02: the fixture's compass id %q is not %q", skyCompass, c02Compass(1))
+	}
 	c.emit("reset", "ok")
 	nv := len(skykeeper.ValAddrs)
 	nonTrivial := false
 	// the validators' view of the remote chain: up to 3 competing claims per nonce
-	mkClaim := func(n uint64, variant int, eth uint64, orch sdk.AccAddress) *skytypes.MsgSendToPalomaClaim {
+	mkClaim := func(n uint64, variant int, eth uint64, orch sdk.AccAddress, compass int) *skytypes.MsgSendToPalomaClaim {
 		contract := e.erc20[0]
 		if variant == 3 {
 			contract = "0x2000000000000000000000000000000000000009" // unregistered token: handler fails
 		}
 		return &skytypes.MsgSendToPalomaClaim{EventNonce: n, EthBlockHeight: eth, TokenContract: contract,
 			Amount: sdkmath.NewInt(int64(100*variant) + int64(n)), EthereumSender: "0x00000000000000000000000000000000000000bb",
-			PalomaReceiver: e.users[0].String(), Orchestrator: orch.String(), ChainReferenceId: skyChain, Metadata: e.meta(orch), SkywayNonce: n, CompassId: skyCompass}
+			PalomaReceiver: e.users[0].String(), Orchestrator: orch.String(), ChainReferenceId: skyChain, Metadata: e.meta(orch), SkywayNonce: n, CompassId: c02Compass(compass)}
 	}
 	ethOf := map[uint64]uint64{}
+	ethBase := uint64(100) // remote heights reported after a re-deployment start above everything observed before
+	nextContract := uint64(2)
 	burst, burstStart := 0, 0
 	for i := 0; i < nops; i++ {
 		x := r.Rng.Intn(100)
@@ -221,13 +245,22 @@ func runC02Case(t *testing.T, r *Rec, nops int) {
 				variant = 2 + r.Rng.Intn(2)
 			}
 			if _, ok := ethOf[n]; !ok {
-				ethOf[n] = 100 + 10*n
+				ethOf[n] = ethBase + 10*n
 				if r.Rng.Intn(12) == 0 {
 					ethOf[n] = 50 // a remote height below an earlier one: TryAttestation errors after moving the cursor
 				}
 			}
 			eth := ethOf[n]
-			m := mkClaim(n, variant, eth, e.orch(v))
+			// the claim's bridge deployment: mostly the current one, sometimes another (Attest stores it
+			// all the same; only the tally's mapping leaves it out)
+			compass := c.dep
+			if r.Rng.Intn(6) == 0 {
+				compass = 1 + r.Rng.Intn(3)
+			}
+			if compass != c.dep {
+				r.Stat("vote.other_deployment")
+			}
+			m := mkClaim(n, variant, eth, e.orch(v), compass)
 			h, _ := m.ClaimHash()
 			hs := new(big.Int).SetBytes(h).String()
 			appl := 1
@@ -240,7 +273,7 @@ func runC02Case(t *testing.T, r *Rec, nops int) {
 				_, err := e.ms.SendToPalomaClaim(ctx, m)
 				return err
 			})
-			op := fmt.Sprintf("vote %d %d %s %d %d %d", v+1, n, hs, eth, appl, m.Amount.Int64())
+			op := fmt.Sprintf("vote %d %d %s %d %d %d %d", v+1, n, hs, eth, appl, m.Amount.Int64(), compass)
 			c.emit(op, res+" "+c.state())
 			r.Stat("vote." + res)
 			c.checkVotes(op)
@@ -363,6 +396,10 @@ func runC02Case(t *testing.T, r *Rec, nops int) {
 					if a.nonce != cursor+1 {
 						r.Hit("consecutive_order", fmt.Sprintf("nonce %d observed while the cursor stood at %d", a.nonce, cursor), c.replay())
 					}
+					// per bridge deployment: only claims of the deployment on record are tallied
+					if c.dep != 0 && a.compass != c.dep {
+						r.Hit("observed_of_current_deployment", fmt.Sprintf("claim of deployment %d observed at nonce %d while deployment %d is on record after `%s`", a.compass, a.nonce, c.dep, op), c.replay())
+					}
 					cursor = a.nonce
 					if c.seenObserved[fmt.Sprint(a.nonce)] {
 						r.Hit("one_claim_per_nonce", fmt.Sprintf("second claim observed at nonce %d in one epoch", a.nonce), c.replay())
@@ -393,6 +430,26 @@ func runC02Case(t *testing.T, r *Rec, nops int) {
 			c.epochStart, c.obsCount = n, map[uint64]int{}
 			c.emit(fmt.Sprintf("override %d", n), c.state())
 			r.Stat("op.override")
+		case x < 96: // chain activation: the bridge is (re-)deployed with a compass id; the cursor is reset to 0
+			k := 1 + r.Rng.Intn(3)
+			addr := fmt.Sprintf("0x%040x", 0x1234+nextContract)
+			if err := e.in.EvmKeeper.ActivateChainReferenceID(e.ctx, skyChain, &evmtypes.SmartContract{Id: nextContract}, addr, []byte(c02Compass(k))); err != nil {
+				t.Fatal(err)
+			}
+			nextContract++
+			if got := e.raw.GetLatestCompassID(e.ctx, skyChain); got != c02Compass(k) {
+				t.Fatalf("C02: activation did not install compass id %q (got %q)", c02Compass(k), got)
+			}
+			c.dep = k
+			c.seenObserved = map[string]bool{}
+			c.epochStart, c.obsCount = 0, map[uint64]int{}
+			// the remote chain goes on: later events are reported at heights above everything seen so far
+			ethBase = e.raw.GetLastObservedEthereumBlockHeight(e.ctx, skyChain).EthereumBlockHeight + 100
+			ethOf = map[uint64]uint64{}
+			op := fmt.Sprintf("activate %d", k)
+			c.emit(op, c.state())
+			r.Stat("op.activate")
+			c.checkGap(op)
 		default: // an idle block
 			e.setBlock(e.height+1, e.now.Add(2*time.Second))
 		}
